@@ -519,9 +519,24 @@ def _ignore_excluded(exclude, keep=()):
 
 
 def _sync_job_workspaces(
-    src, dst, strategy, exclude, copy, copytree, recursive=True, deep=False, subdir=""
+    src,
+    dst,
+    strategy,
+    exclude,
+    copy,
+    copytree,
+    recursive=True,
+    deep=False,
+    subdir="",
+    exclude_nested=None,
 ):
-    """Synchronize two job workspaces file by file, following the provided strategy."""
+    """Synchronize two job workspaces file by file, following the provided strategy.
+
+    The patterns in ``exclude`` apply to the entries of ``subdir``, the patterns
+    in ``exclude_nested`` (default: the same) to everything below.
+    """
+    if exclude_nested is None:
+        exclude_nested = exclude
     # Compare all files: by default dircmp ignores names such as 'tags', 'CVS',
     # '.git' or '__pycache__', which may well be job data.
     if deep:
@@ -538,8 +553,8 @@ def _sync_job_workspaces(
         if os.path.isfile(fn_src):
             copy(fn_src, fn_dst)
         elif recursive:
-            if exclude:
-                copytree(fn_src, fn_dst, ignore=_ignore_excluded(exclude))
+            if exclude_nested:
+                copytree(fn_src, fn_dst, ignore=_ignore_excluded(exclude_nested))
             else:
                 copytree(fn_src, fn_dst)
         else:
@@ -563,7 +578,7 @@ def _sync_job_workspaces(
                 src=src,
                 dst=dst,
                 strategy=strategy,
-                exclude=exclude,
+                exclude=exclude_nested,
                 copy=copy,
                 copytree=copytree,
                 recursive=recursive,
@@ -692,7 +707,9 @@ def sync_jobs(
         exclude = [exclude]
     else:
         exclude = list(exclude)  # the caller's list must not be modified
-    # The internal files are excluded by their exact names only.
+    # The internal files are excluded by their exact names only, and only in
+    # the job directory itself: files of the same name further down are data.
+    exclude_nested = list(exclude)
     exclude.append(re.escape(src.FN_STATE_POINT) + "$")
     if doc_sync != DocSync.COPY:
         exclude.append(re.escape(src.FN_DOCUMENT) + "$")
@@ -732,6 +749,7 @@ def sync_jobs(
             copytree=proxy.copytree,
             recursive=recursive,
             deep=deep,
+            exclude_nested=exclude_nested,
         )
 
     if doc_sync not in (DocSync.NO_SYNC, DocSync.COPY):
